@@ -183,8 +183,19 @@ public:
 
   const abs_dom_t &get_post_summary() const { return m_post_summary; }
 
+  // Return false if the context is the join of other contexts
+  bool is_exact() const { return m_exact; }
+
   // Check if d entails the summary precondition
   bool is_subsumed(const abs_dom_t &d, bool exact_check) const {
+    if (!m_exact) {
+      // This context is the join of several contexts. The pair
+      // (pre1 | pre2, post1 | post2) is not a summary: an input in
+      // the join that is neither in pre1 nor in pre2 can produce an
+      // output that is neither in post1 nor in post2. It keeps the
+      // (joined) invariants but it must not be reused.
+      return false;
+    }
     const abs_dom_t &pre_summary = get_pre_summary();
     if (m_exact && exact_check) {
       return (d <= pre_summary && pre_summary <= d);
@@ -1946,6 +1957,10 @@ public:
     if (it != m_ctx.get_calling_context_table().end()) {
       auto &ccs = it->second;
       for (auto &cc:  ccs) {
+	if (!cc->is_exact()) {
+	  // joined calling contexts are not summaries
+	  continue;
+	}
 	summary.add(cc->get_pre_summary(), cc->get_post_summary());
       }
     }
